@@ -1562,6 +1562,11 @@ class Evaluator:
         return set(self._comp(node, env, list))
 
     def ex_DictComp(self, node, env):
+        if len(node.generators) == 1:
+            it = self.eval(node.generators[0].iter, env)
+            if type(it).__name__ == "SymItems":
+                from .symdict import comprehend
+                return comprehend(self, node, env, it)
         out = {}
         self._comp_rec(node.generators, 0, Env(env.module, self, parent=env),
                        lambda e: out.__setitem__(self.eval(node.key, e), self.eval(node.value, e)))
